@@ -104,7 +104,24 @@ fn judge_header(x: &[u8], h: &v1::Header<'static>, via: &str, rec: &mut Recorder
     };
     let line_s = match std::str::from_utf8(line) {
         Ok(s) => s,
-        Err(_) => return,
+        Err(_) => {
+            // the accepted line is not valid UTF-8 (C01's subject): whatever the header holds, the
+            // text it reports and prints cannot be the line; the byte-level identities still apply
+            let d = guard(|| (h.to_string(), format!("PROXY {}{}{}\r\n", h.protocol(), if h.addresses_str().is_empty() && line.len() <= 15 { "" } else { " " }, h.addresses_str())));
+            rec.event();
+            match d {
+                Err(m) => viol(rec, "panic:display", m),
+                Ok((d, re)) => {
+                    if d.as_bytes() != line || text.as_bytes() != line {
+                        viol(rec, "display", format!("to_string() = {:?}, header = {:?}, the (non-UTF-8) line is {:?}", d, text, show(line, 140)));
+                    }
+                    if re.as_bytes() != line {
+                        viol(rec, "reassembly", format!("PROXY + SP + protocol + separator + addresses_str + CRLF = {:?}, the (non-UTF-8) line is {:?}", re, show(line, 140)));
+                    }
+                }
+            }
+            return;
+        }
     };
     let body = &line_s[..line_s.len() - 2];
     // second field of the line
